@@ -53,6 +53,7 @@ def classify(out, rc):
 
 def main(argv):
     tier = "quick"
+    do_harvest = False
     only = []
     props = None
     i = 0
@@ -65,6 +66,8 @@ def main(argv):
                 only.append(argv[i]); i += 1
         elif argv[i] == "--props":
             props = argv[i + 1].split(","); i += 2
+        elif argv[i] == "--harvest":
+            do_harvest = True; i += 1
         else:
             i += 1
     if repo_dirty():
@@ -107,8 +110,47 @@ def main(argv):
         results[n] = entry
         json.dump(results, open(resfile, "w"), indent=1, sort_keys=True)
     write_md(results)
+    if do_harvest:
+        harvest(results)
     assert not repo_dirty(), "/repo left dirty"
     return 0
+
+
+def harvest(results):
+    """Keep the minimal failing input of every caught change as a permanent corpus case (it runs first in every check),
+    so that a change once caught with an input stays caught whatever the random generators do later.  Only cases the
+    unchanged tree's model understands are kept (core histories: `drv core` answers no `bad-op`)."""
+    drv = os.path.join(ROOT, "lean", ".lake", "build", "bin", "drv")
+    n = 0
+    for name, e in sorted(results.items()):
+        if "error" in e:
+            continue
+        for pid, v in e.items():
+            m = re.search(r"replay=(\S+)", v.get("line", ""))
+            if not m or "no-failing" in v.get("line", "") or not os.path.exists(m.group(1)):
+                continue
+            path, base = m.group(1), os.path.basename(m.group(1))
+            short = re.sub(r"[^A-Za-z0-9]+", "_", name)[:40]
+            txt = open(path).read().splitlines()
+            if txt and txt[0].startswith("case "):
+                txt[0] = "case seed_" + short
+            body = "\n".join(txt) + "\n"
+            if base == "case.ops":
+                r = subprocess.run([drv, "core"], input=body, capture_output=True, text=True)
+                if r.returncode != 0 or "bad-op" in r.stdout:
+                    continue
+                dst = os.path.join(ROOT, "corpus", "core", "seed_%s.ops" % short)
+            elif base == "case.sched" and pid in ("C03", "C04", "C10", "C11") and not any(l.startswith("race") for l in txt):
+                dst = os.path.join(ROOT, "corpus", pid, "seed_%s.sched" % short)
+            elif base == "case.io":
+                dst = os.path.join(ROOT, "corpus", "C17", "seed_%s.io" % short)
+            else:
+                continue
+            if not os.path.exists(dst):
+                os.makedirs(os.path.dirname(dst), exist_ok=True)
+                open(dst, "w").write(body)
+                n += 1
+    print("harvested %d new corpus cases" % n)
 
 
 def write_md(results):
